@@ -119,6 +119,47 @@ fn run_check(id: &str, tier: Tier) -> i32 {
                 "strict profile: debug assertions and overflow checks on; tmpfs as the device; page size 1024".into(),
                 "hash-map iteration order inside the library fixed by the entropy seed (VERIF_SEED)".into(),
             ];
+            if id == "C03" {
+                // (first, while this process is still single-threaded: each history runs in a forked copy)
+                // long staged histories (a reader held over tens of commits)
+                c.assumptions.push("plus staged histories in which one reader is held open over 8 to 66 (thorough: up to 260) commits while a second, younger one outlives it (coverage.long_histories)".into());
+                let mut n = 0u64;
+                let scratch = report::scratch_dir();
+                iosim::set_track_prefix(&scratch);
+                for (name, cfg, acts) in c03::long_histories(tier) {
+                    let hist = runner::History { cfg: cfg.clone(), actions: acts.clone() };
+                    let path = format!("{}/c03-long.db", scratch);
+                    let res = isolate::run_in_child(600, || {
+                        let or = runner::Oracles { readers_frozen: true, dump_after: true, ..runner::Oracles::NONE };
+                        let mut vs: Vec<serde_json::Value> = vec![];
+                        match runner::Runner::new(&path, cfg.clone()) {
+                            Ok(mut r) => {
+                                for (i, a) in acts.iter().enumerate() {
+                                    for v in r.step(a, &or) {
+                                        vs.push(serde_json::json!([v.class, format!("step {}: {}", i, v.detail)]));
+                                    }
+                                    if r.poisoned || vs.len() > 5 {
+                                        break;
+                                    }
+                                }
+                            }
+                            Err(e) => vs.push(serde_json::json!(["create_failed", e])),
+                        }
+                        let _ = std::fs::remove_file(&path);
+                        serde_json::Value::Array(vs).to_string()
+                    });
+                    n += 1;
+                    match res {
+                        Ok(out) => {
+                            for v in serde_json::from_str::<serde_json::Value>(&out).ok().and_then(|v| v.as_array().cloned()).unwrap_or_default() {
+                                c.violation(v[0].as_str().unwrap_or("long"), &format!("[{}] {}", name, v[1].as_str().unwrap_or("")), || serde_json::json!({"engine": "seqx", "seed": 1, "history": hist.to_json()}));
+                            }
+                        }
+                        Err(e) => c.violation("process_death", &format!("[{}] the process running this history {}", name, e), || serde_json::json!({"engine": "seqx", "seed": 1, "history": hist.to_json()})),
+                    }
+                }
+                c.cov("long_histories", serde_json::json!(n));
+            }
             seqx::explore(&mut c, id, "seqx");
             if id == "C07" {
                 // one leaf of more than 2^16 entries filled and read by a single write transaction
